@@ -153,7 +153,7 @@ def main():
             j["line_seed"] = rnd * 100 + i
             # ... or between the critical sections of the controller's callbacks (finishedCheck, postMortemCheck,
             # _stopComponents, finish / restart / kill)
-            j["ty_which"] = ("emission", "controller", "both")[((rnd + i) // 2) % 3]
+            j["ty_which"] = ("emission", "controller", "both", "lifecycle", "all")[((rnd + i) // 2) % 5]
         if thorough:
             # LINE-level yield injection on ~10% of the children (slow: K=10 and fewer scenarios)
             for i, j in enumerate(jobs):
